@@ -165,7 +165,10 @@ static void runC34T(Case& c) {
       int done = pushesDone.fetch_add(1) + 1;
       if (done > cap)
         wrapped = 1;
-      int lower = done - popsDone.load() - popsInFlight.load();
+      // in-flight pops are read BEFORE finished ones: a pop that completes between the two reads is then counted twice
+      // (bound too low, harmless) instead of not at all (bound too high: a false alarm)
+      int inFlight = popsInFlight.load();
+      int lower = done - popsDone.load() - inFlight;
       VF_CHECK(c, lower <= cap, "over-capacity", "at least %d elements are in the ring, capacity() is %d", lower, cap);
     };
     auto notePop = [&](const Elem& e, long s0) {
